@@ -15,8 +15,10 @@ Inv (written from the statements of C03/C04, reads private fields only):
     obj.document is the root of obj's parent chain when that root is a Document,
     get_path / document / itersections / iterproperties terminate.
 
-Two entry points: run_histories (below) and run_bulk_refusals (second half of the file: C06 for bulk / multi-step
-operations - the refused element at every position of the argument, for every reason of refusal).
+Two entry points: run_histories (below; state search plus the index sweep - every index-taking operation over every
+index, list length and position) and run_bulk_refusals (second half of the file: C06 for bulk / multi-step
+operations - the refused element at every position of the argument, for every reason of refusal, on Sections with
+every earlier life: merged, unmerged, cloned, cleaned, finalized).
 
 Exploration (run_histories): explicit-state breadth first search.  A state is the object graph reachable from a
 pool of 1 Document, 3 Sections (names a, b, a) and 2 Properties (names a, b); two histories that
@@ -840,6 +842,268 @@ def op_json(op):
     return [list(x) if isinstance(x, tuple) else x for x in op]
 
 
+# ---------------------------------------------------------------------------------------------
+# index sweep: every index-taking operation x every index x every position x list lengths 0..4 (5)
+# ---------------------------------------------------------------------------------------------
+#
+# The pool of the state search has at most three sibling Sections / two sibling Properties and a handful of
+# indices.  The operations that take a list position (reorder, insert, item assignment on the child lists) are
+# therefore swept separately: child lists of n = 0..4 (thorough: 5) Sections / Properties, produced by several
+# editing histories (appended, constructed with parent=, extended, inserted at the front, clone of such a
+# container, merged in from a template), the object concerned at EVERY position, EVERY integer index from
+# -2n-2 to 2n+2 and a few non-integers.  Contract per call:
+#
+#     requires  Inv(pre-state)
+#     ensures   Inv(post-state)                               (each object listed exactly once, parent agreement)
+#     on raise  every root unchanged
+#     reorder accepted  =>  the siblings without the object keep their order and the object sits where
+#                           list.insert(index, object) puts it into that shorter list
+#
+# Nothing is demanded about which indices are accepted.
+
+SWEEP_HOSTS = (('document', 's'), ('section-in-document', 's'), ('section-in-document', 'p'),
+               ('detached-section', 's'), ('detached-section', 'p'))
+SWEEP_MODES = ('appended', 'constructed-with-parent', 'extended', 'inserted-at-front', 'clone-of-container',
+               'merged-in-from-template')
+NON_INTEGER_INDICES = ('1', None, 1.5, True)
+
+
+def index_class(i, n):
+    """Why is this index special for a list of n elements (independent of the library)."""
+    if isinstance(i, bool):
+        return 'bool-index'
+    if not isinstance(i, int):
+        return 'index-not-an-integer'
+    if i >= 0:
+        return 'index-in-range' if i < n else ('index-at-end' if i == n else 'index-beyond-end')
+    if i > -n:
+        return 'negative-index-in-range'
+    return 'negative-index-at-front' if i == -n and n else 'negative-index-before-front'
+
+
+def _sweep_child(kind, name, rich=True):
+    if kind == 's':
+        c = odml.Section(name=name, type='t')
+        if rich:
+            odml.Property(name='gp', values=[1], parent=c)
+        return c
+    return odml.Property(name=name, values=[len(name)])
+
+
+def _sweep_scene(host, kind, n, mode, rich=True):
+    """(container, tracked objects): a child list of n objects c0..c(n-1) built by the history `mode`
+    (in a Document the Section 'top' is one more sibling)."""
+    with h.quiet():
+        doc = top = None
+        if host != 'detached-section':
+            doc = odml.Document(author='A')
+            top = odml.Section(name='top', type='t', parent=doc)
+        cont = doc if host == 'document' else odml.Section(name='host', type='t')
+        kids = [_sweep_child(kind, 'c%d' % j, rich and j == 0) for j in range(n)] \
+            if mode != 'constructed-with-parent' else []
+        if mode == 'appended':
+            for c in kids:
+                cont.append(c)
+        elif mode == 'constructed-with-parent':
+            for j in range(n):
+                if kind == 's':
+                    odml.Section(name='c%d' % j, type='t', parent=cont)
+                else:
+                    odml.Property(name='c%d' % j, values=[j], parent=cont)
+        elif mode == 'extended':
+            cont.extend(kids)
+        elif mode == 'inserted-at-front':
+            for c in reversed(kids):
+                cont.insert(0, c)
+        elif mode == 'clone-of-container':
+            for c in kids:
+                cont.append(c)
+            cont = cont.clone()
+        elif mode == 'merged-in-from-template':
+            tmpl = odml.Section(name='template', type='t')
+            for c in kids:
+                tmpl.append(c)
+            cont.merge(tmpl)
+        else:
+            raise AssertionError(mode)
+        if host == 'section-in-document':
+            top.append(cont)
+    return cont, [x for x in (doc, top, cont) if x is not None]
+
+
+def _sweep_operand(what, kind, cont, objs, k):
+    """The object handed to insert / item assignment."""
+    with h.quiet():
+        if what == 'fresh':
+            o = _sweep_child(kind, 'f')
+        elif what == 'attached-elsewhere':
+            d2 = odml.Document(author='B')
+            other = odml.Section(name='other', type='t', parent=d2)
+            o = _sweep_child(kind, 'e')
+            other.append(o)
+            _sweep_child(kind, 'e2').parent = other
+            objs.extend([d2, other])
+        else:
+            return _kids(cont, kind)[k]
+    objs.append(o)
+    return o
+
+
+def _rescan(objs):
+    known = set(id(x) for x in objs)
+    stack = list(objs)
+    steps = 0
+    while stack and steps < 2000:
+        steps += 1
+        n = stack.pop()
+        kids = []
+        if isinstance(n, (BaseDocument, BaseSection)):
+            kids += _kids(n, 's')
+        if isinstance(n, BaseSection):
+            kids += _kids(n, 'p')
+        for c in kids:
+            if id(c) not in known and isinstance(c, (BaseSection, BaseProperty)):
+                known.add(id(c))
+                objs.append(c)
+                stack.append(c)
+
+
+def expected_after_reorder(before, obj, index):
+    """Own model of 'take the object out, list.insert(index, object) into the rest' (no list.insert used)."""
+    rest = [x for x in before if x is not obj]
+    m = len(rest)
+    i = int(index)
+    pos = min(i, m) if i >= 0 else max(0, m + i)
+    return rest[:pos] + [obj] + rest[pos:]
+
+
+def index_sweep(col, tier):
+    """Returns {(clause, op, feature): [count, size, witness, detail]}."""
+    quick = tier == 'quick'
+    max_n = 4 if quick else 5
+    raw = {}
+
+    def one(host, kind, n, mode, op, what, k, index):
+        cont, objs = _sweep_scene(host, kind, n, mode)
+        lst = _kids(cont, kind)
+        n_real = len(lst)
+        if op == 'reorder':
+            obj = lst[k]
+        else:
+            obj = _sweep_operand(what, kind, cont, objs, k)
+        _rescan(objs)
+        bad_pre = invariant_of(objs, queries=None)
+        assert not bad_pre, (host, kind, n, mode, bad_pre)
+        pre = pre_snapshot_of(objs)
+        before = list(lst)
+        if op == 'reorder':
+            def thunk():
+                obj.reorder(index)
+        elif op == 'insert':
+            def thunk():
+                cont.insert(index, obj)
+        elif kind == 's':
+            def thunk():
+                cont.sections[index] = obj
+        else:
+            def thunk():
+                cont.properties[index] = obj
+        outcome, exc = 'ret', None
+        violations = []
+        try:
+            with guard(10.0):
+                with h.quiet():
+                    try:
+                        thunk()
+                    except Timeout:
+                        raise
+                    except Exception as e:      # noqa
+                        outcome, exc = 'exc', e
+        except Timeout:
+            outcome = 'timeout'
+            violations.append(('operation-terminates', 'operation did not return within 10 s'))
+        _rescan(objs)
+        problems = invariant_of(objs, queries=None) if outcome != 'timeout' else []
+        if problems:
+            violations.append((primary_clause(problems),
+                               'after %s (%s): %s' % (outcome, type(exc).__name__ if exc else 'ok',
+                                                      '; '.join(problems[:3]))))
+        if outcome == 'exc':
+            if problems and any(categorize(p) in STRUCTURAL for p in problems):
+                ch = 'the state is no longer well-formed (%s)' % problems[0]
+            else:
+                ch = changed_on_raise_of(pre, objs)
+            if ch:
+                violations.append(('unchanged-on-raise',
+                                   'raised %s: %s but %s' % (type(exc).__name__, str(exc)[:80], ch)))
+        if outcome == 'ret' and op == 'reorder' and not problems and isinstance(index, int):
+            want = expected_after_reorder(before, obj, index)
+            got = _kids(cont, kind)
+            if len(got) != len(want) or any(a is not b for a, b in zip(got, want)):
+                violations.append(('reorder-position',
+                                   'children %s, reorder(%r) of %r gave %s; taking the object out and inserting it at '
+                                   'that index gives %s' % ([x._name for x in before], index, obj._name,
+                                                           [getattr(x, '_name', '?') for x in got],
+                                                           [x._name for x in want])))
+        f = set()
+        if op != 'reorder':
+            f.add({'fresh': 'fresh-object', 'attached-elsewhere': 'child-attached-elsewhere',
+                   'child-of-this-list': 'child-already-in-destination'}[what])
+            if op == 'setitem' and what == 'child-of-this-list' and isinstance(index, int) and \
+                    -n_real <= index < n_real and lst[index] is obj:
+                f.add('replaces-itself')
+        if isinstance(index, str) and op == 'setitem':
+            f.add('name-as-index')
+        else:
+            ic = index_class(index, n_real)
+            if op == 'setitem' and ic in ('index-at-end', 'index-beyond-end', 'negative-index-before-front'):
+                ic = 'index-out-of-range'
+            f.add(ic)
+        feat = '+'.join(sorted(f))
+        col.case(cls_key=('index-sweep', op, host, kind, feat, outcome))
+        for clause, detail in violations:
+            key = (clause, op, feat)
+            witness = {'container': host, 'child-list': 'sections' if kind == 's' else 'properties',
+                       'children': n_real, 'built': mode, 'op': '%s(%r)' % (op, index),
+                       'object': ('child at position %d' % k) if (op == 'reorder' or what == 'child-of-this-list')
+                       else what}
+            size = (n_real, len(repr(witness)))
+            if key not in raw:
+                raw[key] = [0, size, witness, detail]
+            raw[key][0] += 1
+            if size < raw[key][1]:
+                raw[key][1:] = [size, witness, detail]
+
+    for host, kind in SWEEP_HOSTS:
+        extra = 1 if host == 'document' else 0                  # 'top' is one more sibling in the Document's list
+        for mode in SWEEP_MODES:
+            if host == 'document' and mode in ('clone-of-container', 'merged-in-from-template'):
+                continue
+            for n in range(0, max_n + 1 - extra):
+                # quick: every list length for the appended lists, the other histories on lists of 3
+                reduced = quick and mode != 'appended'
+                if reduced and (n + extra != 3 or host == 'detached-section'):
+                    continue
+                size = n + extra
+                indices = list(range(-2 * size - 2, 2 * size + 3)) + list(NON_INTEGER_INDICES)
+                for index in indices:
+                    for k in range(size):
+                        one(host, kind, n, mode, 'reorder', None, k, index)
+                        one(host, kind, n, mode, 'setitem', 'child-of-this-list', k, index)
+                        if not quick or k in (0, size - 1):
+                            one(host, kind, n, mode, 'insert', 'child-of-this-list', k, index)
+                    for what in ('fresh', 'attached-elsewhere'):
+                        if reduced and what == 'fresh':
+                            continue
+                        one(host, kind, n, mode, 'insert', what, 0, index)
+                        if size:
+                            one(host, kind, n, mode, 'setitem', what, 0, index)
+                if size:
+                    for what in ('fresh', 'attached-elsewhere'):
+                        one(host, kind, n, mode, 'setitem', what, 0, 'c0' if n else 'top')
+    return raw
+
+
 PLANS = {
     # (start configuration, number of operations explored exhaustively from it)
     'quick': (('K0-all-detached', 2), ('K2-two-branches', 2), ('K1-chain', 1), ('K3-no-document', 1),
@@ -849,7 +1113,7 @@ PLANS = {
 }
 
 
-def run_histories(tier='quick', seed=0, plan=None, walks=None, max_evaluations=None):
+def run_histories(tier='quick', seed=0, plan=None, walks=None, max_evaluations=None, sweep=True):
     quick = tier == 'quick'
     if plan is None:
         plan = PLANS['quick' if quick else 'thorough']
@@ -865,10 +1129,18 @@ def run_histories(tier='quick', seed=0, plan=None, walks=None, max_evaluations=N
              'to all operation sequences of length <= n from that configuration, histories reaching the same '
              'canonical state being merged; each start configuration is itself a history from fresh detached '
              'objects; one evaluation = one contract check {Inv} op {Inv; unchanged on raise} on a pre-state '
-             'rebuilt from fresh objects; distinct = (operation kind, pre-state feature, outcome)%s'
+             'rebuilt from fresh objects; distinct = (operation kind, pre-state feature, outcome)%s; plus the index '
+             'sweep: reorder / insert / item assignment with every integer index from -2n-2 to 2n+2 (and 4 non-integers) '
+             'on child lists of n = 0..%d Sections / Properties (of a Document, a Section in a document, a detached '
+             'Section; built by append, parent=, extend, insert at the front, clone of the container, merge from a '
+             'template%s), the object concerned (the reordered child; for insert / item assignment a fresh object, one '
+             'attached elsewhere, a child of the same list) at every position; oracle Inv on every exit, unchanged on '
+             'raise, and for an accepted reorder the order that taking the object out and inserting it at the index gives'
              % (len(OPS), list(plan),
                 '; plus %d seeded random walks of up to 8 Inv-preserving operations from all-detached' % walks
-                if walks else ''),
+                if walks else '', 4 if quick else 5,
+                '; quick: histories other than append on lists of 3 of the Document and of the Section in a document, '
+                'insert of a child of the same list at the first and last position only' if quick else ''),
         exhaustive=True)
     raw = {}          # (clause, kind, feature) -> [count, history, op, detail]
 
@@ -962,7 +1234,21 @@ def run_histories(tier='quick', seed=0, plan=None, walks=None, max_evaluations=N
                           'ops': e['witness']},
                  detail='%s  [%d failing (state, operation) pairs; pre-state features seen: %s]'
                         % (e['detail'], e['count'], ', '.join(sorted(set(e['raw'])))[:300]))
+    # index sweep (own evaluations, own failure classes)
+    sweep_evals = 0
+    if sweep:
+        before_sweep = col.evaluations
+        for (clause, kind, feat), (count, _, witness, detail) in sorted(index_sweep(col, tier).items(), key=repr):
+            prop = 'C06' if clause == 'unchanged-on-raise' else \
+                ('C04' if clause in ('sibling-section-names-unique', 'sibling-property-names-unique',
+                                     'name-not-empty', 'id-canonical-uuid') else 'C03')
+            col.fail(check='%s/%s' % (NAME, clause),
+                     cls={'clause': clause, 'op': kind, 'feature': feat, 'property': prop, 'part': 'index-sweep'},
+                     witness=witness,
+                     detail='%s  [%d failing evaluations of this class in the index sweep]' % (detail, count))
+        sweep_evals = col.evaluations - before_sweep
     res = col.result()
+    res['index_sweep_evaluations'] = sweep_evals
     res['states'] = len(seen)
     res['states_expanded'] = states_expanded
     if sampled:
@@ -1006,7 +1292,10 @@ class Scene(object):
     D:  top(def) > mid > dest(def) > [Section k(def) > [Section g, Property g=[1]], Section k2,
                                       Property k=[1,2] mV (def), Property k2=['x']]
                        > sib > [Section e > [Section r, Property q], Property e]
-        top2, lt > [Section c1, Property lp] (a link target), lbad > [Section k of ANOTHER type]
+        top2, lt > [Section c1 > [Section cc], Property lp=[7]] (a link target / merge template), lok > [Section z,
+        Property zp] (another one), targets that cannot be merged into dest: lbad > [Section k of ANOTHER type],
+        lbadp > [Property k=['abc']]; targets that clash only with what dest has taken over from lt:
+        lmsec > [Section c1 of ANOTHER type], lmprop > [Property lp=['high']], lmdeep > [c1 > [cc of ANOTHER type]]
     D2: other > [Section x > [Property q], Property x]
     lone (detached root, same children as dest)
     """
@@ -1022,13 +1311,23 @@ class Scene(object):
             self.sib = self.sec('sib', 't', self.mid)
             self.top2 = self.sec('top2', 't', self.D)
             if link:
-                self.lt = self.sec('lt', 'td', self.D)
-                self.sec('c1', 't', self.lt)
+                self.lt = self.sec('lt', 'td', self.D, reference='lt ref')
+                self.sec('cc', 't', self.sec('c1', 't', self.lt))
                 self.prop('lp', self.lt, values=[7])
+                self.lok = self.sec('lok', 'td', self.D, definition='another def')
+                self.sec('z', 't', self.lok)
+                self.prop('zp', self.lok, values=[1])
+            if link == 'targets':
                 self.lbad = self.sec('lbad', 'td', self.D)
                 self.sec('k', 'OTHER', self.lbad)
+                # targets that clash with Property content of dest, and with what dest takes over from lt only
+                self.prop('k', self.sec('lbadp', 'td', self.D), values=['abc'], dtype='string')
+                self.sec('c1', 'OTHER', self.sec('lmsec', 'td', self.D))
+                self.prop('lp', self.sec('lmprop', 'td', self.D), values=['high'], dtype='string')
+                self.sec('cc', 'OTHER', self.sec('c1', 't', self.sec('lmdeep', 'td', self.D)))
             self.other = self.sec('other', 't', self.D2)
-            self.lone = self.sec('lone', 'tl', None, reference='lone ref')
+            if lone is not None:
+                self.lone = self.sec('lone', 'tl', None, reference='lone ref')
             for cont in (self.dest, self.lone) if lone else (self.dest,):
                 k = self.sec('k', 't', cont, definition='kd')
                 self.sec('g', 't', k)
@@ -1744,29 +2043,374 @@ def phase_values(bulk, tier, seed):
                               {'op': op, 'dtype': dtype, 'start': repr(start), 'argument': repr(lst)})
 
 
+# ----- earlier life of the Section an operation is applied to ----------------------------------------
+#
+# "at any point of an editing history": the Section concerned may have been merged, unmerged, cloned, cleaned or
+# finalized before.  Every life below is produced through the public API on the scene (link=True) and leaves dest
+# (or its clone) with some combination of: link text recorded or not, link resolved or not, content taken over
+# from lt present / removed / edited.
+
+LIVES = ('no-link', 'link-resolved', 'include-recorded',
+         'merged-explicitly', 'merged-explicitly-nonstrict', 'merged-then-unmerged', 'merged-then-cleaned',
+         'merged-explicitly-twice', 'merged-explicitly-then-edited',
+         'link-resolved-then-cleaned', 'link-resolved-then-document-cleaned', 'link-resolved-then-edited',
+         'link-recorded-while-detached', 'link-recorded-then-finalized', 'link-resolved-cleaned-finalized',
+         'clone-of-linking-section', 'clone-of-explicitly-merged-section',
+         'merged-explicitly-child-moved-away', 'link-resolved-child-moved-away',
+         'merged-explicitly-then-template-edited', 'link-resolved-then-template-edited',
+         'link-resolved-then-template-removed')
+# what a life leaves behind outside the Section itself (part of the class of a failure)
+LIFE_EXTRA_FACT = {'merged-explicitly-child-moved-away': 'taken-over-child-moved-to-another-parent',
+                   'link-resolved-child-moved-away': 'taken-over-child-moved-to-another-parent',
+                   'merged-explicitly-then-template-edited': 'template-edited-afterwards',
+                   'link-resolved-then-template-edited': 'template-edited-afterwards',
+                   'link-resolved-then-template-removed': 'template-removed-from-the-document'}
+MERGED_LIVES = tuple(x for x in LIVES if x not in ('no-link', 'include-recorded'))
+
+
+def live(sc, life):
+    """Give sc.dest the earlier life `life`; returns the Section the operation under test is applied to."""
+    sec = sc.dest
+    with h.quiet():
+        if life == 'no-link':
+            pass
+        elif life == 'link-resolved':
+            sec.link = '/lt'
+        elif life == 'include-recorded':
+            sec._include = 'http://example.invalid/terms.xml#sec'     # as a loader records it; nothing is fetched
+        elif life == 'merged-explicitly':
+            sec.merge(sc.lt)
+        elif life == 'merged-explicitly-nonstrict':
+            sec.merge(sc.lt, strict=False)
+        elif life == 'merged-then-unmerged':
+            sec.merge(sc.lt)
+            sec.unmerge(sc.lt)
+        elif life == 'merged-then-cleaned':
+            sec.merge(sc.lt)
+            sec.clean()
+        elif life == 'merged-explicitly-twice':
+            sec.merge(sc.lok, strict=False)
+            sec.merge(sc.lt)
+        elif life == 'merged-explicitly-then-edited':
+            sec.merge(sc.lt)
+            sec.sections['c1'].definition = 'edited after the merge'
+            sec.properties['lp'].values = [8]
+        elif life == 'link-resolved-then-cleaned':
+            sec.link = '/lt'
+            sec.clean()
+        elif life == 'link-resolved-then-document-cleaned':
+            sec.link = '/lt'
+            sc.D.clean()
+        elif life == 'link-resolved-then-edited':
+            sec.link = '/lt'
+            sec.sections['c1'].definition = 'edited after the link was resolved'
+            sec.properties['lp'].values = [8]
+        elif life in ('link-recorded-while-detached', 'link-recorded-then-finalized'):
+            sc.mid.remove(sec)
+            sec.link = '/lt'                                        # detached: the text is recorded only
+            sc.mid.insert(0, sec)
+            if life == 'link-recorded-then-finalized':
+                sc.D.finalize()
+        elif life == 'link-resolved-cleaned-finalized':
+            sec.link = '/lt'
+            sc.D.clean()
+            sc.D.finalize()
+        elif life in ('merged-explicitly-child-moved-away', 'link-resolved-child-moved-away'):
+            if life.startswith('merged'):
+                sec.merge(sc.lt)
+            else:
+                sec.link = '/lt'
+            sc.top2.append(sec.sections['c1'])
+        elif life in ('merged-explicitly-then-template-edited', 'link-resolved-then-template-edited',
+                      'link-resolved-then-template-removed'):
+            if life.startswith('merged'):
+                sec.merge(sc.lt)
+            else:
+                sec.link = '/lt'
+            if life.endswith('removed'):
+                sc.D.remove(sc.lt)
+            else:
+                sc.lt.sections['c1'].name = 'c1x'
+                sc.lt.properties['lp'].values = [7, 70]
+                odml.Section(name='late', type='t', parent=sc.lt)
+        elif life in ('clone-of-linking-section', 'clone-of-explicitly-merged-section'):
+            if life == 'clone-of-linking-section':
+                sec.link = '/lt'
+            else:
+                sec.merge(sc.lt)
+            sec = sc.track(sec.clone())
+            sc.top2.append(sec)
+        else:
+            raise AssertionError(life)
+    sc.rescan()
+    return sec
+
+
+def life_facts(sec, life=None):
+    """What the earlier life left behind, read from private fields before the call (class of a failure)."""
+    facts = [LIFE_EXTRA_FACT[life]] if life in LIFE_EXTRA_FACT else []
+    if getattr(sec, '_include', None) is not None:
+        facts.append('include-recorded')
+    if sec._link is not None:
+        facts.append('link-recorded')
+    merged = getattr(sec, '_merged', None)
+    if merged is not None:
+        facts.append('merged')
+    for c in _kids(sec, 's'):
+        src = getattr(c, '_merged', None)
+        if src is not None and (merged is None or src._parent is not merged):
+            facts.append('child-marked-as-copy-of-an-earlier-merge')
+            break
+    return '+'.join(sorted(facts)) if facts else 'not-merged'
+
+
 # ----- phase F: link assignment (clean the old resolution, set, resolve by merging) -------------------
 
+LINK_TARGETS = (('unresolvable-link', '/no/such/section'), ('unresolvable-link', '../../nowhere'),
+                ('unresolvable-link', 'lt'), ('link-is-not-a-path', 5),
+                ('link-target-cannot-be-merged', '/lbad'), ('link-target-cannot-be-merged', '/lbadp'),
+                ('link-target-clashes-with-taken-over-content', '/lmsec'),
+                ('link-target-clashes-with-taken-over-content', '/lmprop'),
+                ('link-target-clashes-with-taken-over-content', '/lmdeep'),
+                ('link-to-itself', '.'), ('link-to-own-parent', '..'),
+                ('nothing-refusable', '/lt'), ('nothing-refusable', '/lok'),
+                ('nothing-refusable', '/top/mid/sib'), ('nothing-refusable', None), ('nothing-refusable', ''))
+
+
 def phase_link(bulk, tier, seed):
-    targets = (('unresolvable-link', '/no/such/section'), ('unresolvable-link', '../../nowhere'),
-               ('unresolvable-link', 'lt'), ('link-is-not-a-path', 5),
-               ('link-target-cannot-be-merged', '/lbad'), ('nothing-refusable', '/lt'),
-               ('nothing-refusable', '/top/mid/sib'), ('nothing-refusable', None))
-    for state in ('no-link', 'link-resolved', 'include-recorded'):
-        for feat, target in targets:
-            sc = Scene(lone=False, link=True)
-            sec = sc.dest
-            with h.quiet():
-                if state == 'link-resolved':
-                    sec.link = '/lt'
-                    sc.rescan()
-                elif state == 'include-recorded':
-                    sec._include = 'http://example.invalid/terms.xml#sec'     # as a loader records it; nothing is fetched
+    for state in LIVES:
+        for feat, target in LINK_TARGETS:
+            sc = Scene(lone=None, link='targets')
+            sec = live(sc, state)
+            if target == '.':
+                target = sec.get_path()
 
             def thunk():
                 sec.link = target
             f = feat if state != 'include-recorded' else 'link-and-include-exclusive'
             bulk.evaluate(sc, thunk, 'set_link', '%s|%s' % (f, state), 'Section',
-                          {'op': 'dest.link = %r' % (target,), 'state': state}, cls_feat=f)
+                          {'op': 'dest.link = %r' % (target,), 'state': state},
+                          cls_feat='%s|%s' % (f, life_facts(sec, state)))
+
+
+# ----- phase H: every other refusable operation on a Section with an earlier life ----------------------
+
+def _clash_section(sc, name, type_='clash', holder=None):
+    s = sc.track(odml.Section(name=name, type=type_, definition='clashing'))
+    sc.track(odml.Property(name='cp', values=[1], parent=s))
+    if holder is not None:
+        holder.append(s)
+    return s
+
+
+def _clash_property(sc, name, holder=None):
+    p = sc.track(odml.Property(name=name, values=['clash'], unit='u'))
+    if holder is not None:
+        holder.append(p)
+    return p
+
+
+def _good_section(sc):
+    s = sc.track(odml.Section(name='fresh', type='t', definition='fresh'))
+    sc.track(odml.Property(name='fp', values=[1.5], parent=s))
+    return s
+
+
+def _merge_source(sc, bad, bad_first, with_good):
+    src = sc.track(odml.Section(name='src', type='td'))
+    kids = []
+    if bad == 'property-unconvertible':
+        kids.append(odml.Property(name='lp', values=['high'], dtype='string'))
+    elif bad == 'section-same-name-other-type':
+        kids.append(odml.Section(name='c1', type='OTHER'))
+    elif bad == 'nested-section-same-name-other-type':
+        c = odml.Section(name='c1', type='t')
+        odml.Section(name='added-before', type='t', parent=c)
+        odml.Section(name='cc', type='OTHER', parent=c)
+        kids.append(c)
+    elif bad == 'own-section-same-name-other-type':
+        kids.append(odml.Section(name='k', type='OTHER'))
+    if with_good:
+        good = [odml.Section(name='n1', type='t', definition='brand new'), odml.Property(name='np', values=[5])]
+        kids = kids + good if bad_first else good + kids
+    for k in kids:
+        src.append(k)
+    sc.rescan()
+    return src
+
+
+def life_operations():
+    """(operation label, class of the argument, builder(sc, sec) -> thunk | None).  A builder returns None when the
+    scene does not offer the objects it needs (e.g. nothing is left of the taken-over content)."""
+    ops = []
+
+    def add(op, feat, builder, core=False):
+        ops.append((op, feat, builder, core))
+
+    for origin, sname, pname in (('taken-over', 'c1', 'lp'), ('own', 'k', 'k')):
+        clash_s = 'name-clash-at-destination:%s-section' % origin
+        clash_p = 'name-clash-at-destination:%s-property' % origin
+        for elsewhere in (False, True):
+            tail = '+child-attached-elsewhere' if elsewhere else ''
+
+            def mk_s(sc, sname=sname, elsewhere=elsewhere):
+                return _clash_section(sc, sname, holder=sc.other if elsewhere else None)
+
+            def mk_p(sc, pname=pname, elsewhere=elsewhere):
+                return _clash_property(sc, pname, holder=sc.other if elsewhere else None)
+
+            for kind, mk, clash in (('s', mk_s, clash_s), ('p', mk_p, clash_p)):
+                def b_append(sc, sec, mk=mk):
+                    x = mk(sc)
+                    return lambda: sec.append(x)
+
+                def b_insert(sc, sec, mk=mk):
+                    x = mk(sc)
+                    return lambda: sec.insert(1, x)
+
+                def b_parent(sc, sec, mk=mk):
+                    x = mk(sc)
+
+                    def thunk():
+                        x.parent = sec
+                    return thunk
+
+                def b_extend_first(sc, sec, mk=mk):
+                    arg = [mk(sc), _good_section(sc)]
+                    return lambda: sec.extend(arg)
+
+                def b_extend_last(sc, sec, mk=mk):
+                    arg = [_good_section(sc), sc.e_p, mk(sc)]
+                    return lambda: sec.extend(arg)
+
+                def b_setitem(sc, sec, mk=mk, kind=kind):
+                    x = mk(sc)
+                    lst = _kids(sec, kind)
+                    others = [i for i, c in enumerate(lst) if c._name != x._name]
+                    if not others:
+                        return None
+                    i = others[-1]
+
+                    def thunk():
+                        if kind == 's':
+                            sec.sections[i] = x
+                        else:
+                            sec.properties[i] = x
+                    return thunk
+
+                core = origin == 'taken-over'
+                add('append', clash + tail, b_append, core and not elsewhere)
+                add('insert', clash + tail, b_insert)
+                add('set_parent', clash + tail, b_parent, core and elsewhere and kind == 'p')
+                add('extend', clash + tail, b_extend_first)
+                add('extend', clash + tail + '+refused-element-not-first', b_extend_last, core and elsewhere and kind == 's')
+                add('setitem_sec' if kind == 's' else 'setitem_prop', clash + tail, b_setitem,
+                    core and not elsewhere and kind == 's')
+
+        add('ctor_sec', clash_s, lambda sc, sec, n=sname: (lambda: odml.Section(name=n, type='x', parent=sec, definition='new')),
+            origin == 'taken-over')
+        add('ctor_prop', clash_p, lambda sc, sec, n=pname: (lambda: odml.Property(name=n, values=[1], parent=sec)))
+        add('create_section', clash_s, lambda sc, sec, n=sname: (lambda: sec.create_section(n, 'x')))
+        add('create_property', clash_p, lambda sc, sec, n=pname: (lambda: sec.create_property(n, values=[1])),
+            origin == 'taken-over')
+        add('ctor_sec', clash_s + '+invalid-cardinality-argument',
+            lambda sc, sec, n=sname: (lambda: odml.Section(name=n, type='x', parent=sec, sec_cardinality=(2, 1))))
+
+    # renaming: a taken-over child gets the name of an own child and the other way round
+    def b_rename(kind, old, new):
+        def builder(sc, sec):
+            found = [c for c in _kids(sec, kind) if c._name == old]
+            if not found:
+                return None
+
+            def thunk():
+                found[0].name = new
+            return thunk
+        return builder
+    add('set:name', 'name-clash-among-siblings:taken-over-section-renamed', b_rename('s', 'c1', 'k'), True)
+    add('set:name', 'name-clash-among-siblings:own-section-renamed', b_rename('s', 'k', 'c1'))
+    add('set:name', 'name-clash-among-siblings:taken-over-property-renamed', b_rename('p', 'lp', 'k'))
+    add('set:name', 'name-clash-among-siblings:own-property-renamed', b_rename('p', 'k', 'lp'), True)
+
+    # attributes / values of the taken-over objects and of the Section itself
+    def on_child(kind, name, action):
+        def builder(sc, sec):
+            found = [c for c in _kids(sec, kind) if c._name == name]
+            if not found:
+                return None
+            return lambda: action(found[0])
+        return builder
+
+    def _set(attr, v):
+        def action(o):
+            setattr(o, attr, v)
+        return action
+    add('values:values=', 'unconvertible-value-argument:taken-over-property', on_child('p', 'lp', _set('values', [1, 'x'])),
+        True)
+    add('values:extend', 'unconvertible-value-argument:taken-over-property', on_child('p', 'lp', lambda o: o.extend([2, 'x'])))
+    add('values:dtype=', 'values-unconvertible-to-new-dtype:taken-over-property', on_child('p', 'lp', _set('dtype', 'date')))
+    add('set:val_cardinality', 'invalid-cardinality-argument:taken-over-property',
+        on_child('p', 'lp', _set('val_cardinality', (2, 1))))
+    add('set:sec_cardinality', 'invalid-cardinality-argument:taken-over-section',
+        on_child('s', 'c1', _set('sec_cardinality', (2, 1))))
+    add('new_id', 'id-garbage:taken-over-section', on_child('s', 'c1', lambda o: o.new_id('not-a-uuid')))
+    add('reorder', 'index-not-an-integer:taken-over-section', on_child('s', 'c1', lambda o: o.reorder('x')))
+    add('reorder', 'index-not-an-integer:taken-over-property', on_child('p', 'lp', lambda o: o.reorder(None)))
+    add('set:prop_cardinality', 'invalid-cardinality-argument', lambda sc, sec: (lambda: setattr(sec, 'prop_cardinality', 'x')))
+    add('new_id', 'id-garbage', lambda sc, sec: (lambda: sec.new_id('not-a-uuid')))
+
+    # wrong types
+    add('append', 'wrong-object-type', lambda sc, sec: (lambda: sec.append(sc.D2)))
+    add('extend', 'wrong-object-type+refused-element-not-first',
+        lambda sc, sec: (lambda arg=[_good_section(sc), None]: sec.extend(arg)))
+    add('merge', 'wrong-object-type', lambda sc, sec: (lambda: sec.merge(sc.e_p)))
+    add('merge', 'self-merge', lambda sc, sec: (lambda: sec.merge(sec)))
+    add('append', 'destination-in-own-subtree:taken-over-section',
+        on_child('s', 'c1', lambda o: o.append(o._parent)))
+
+    # merging once more: the source clashes with content of the earlier merge
+    for bad in ('property-unconvertible', 'section-same-name-other-type', 'nested-section-same-name-other-type',
+                'own-section-same-name-other-type'):
+        for strict in (True, False):
+            for bad_first, with_good in ((True, False), (True, True), (False, True)):
+                def b_merge(sc, sec, bad=bad, strict=strict, bad_first=bad_first, with_good=with_good):
+                    src = _merge_source(sc, bad, bad_first, with_good)
+                    return lambda: sec.merge(src, strict=strict)
+                add('merge', 'source-clashes-with-%s-content:%s%s'
+                    % ('own' if bad.startswith('own') else 'taken-over', bad, '' if bad_first else '+conflicting-child-not-first'),
+                    b_merge, strict and not bad_first and not bad.startswith('own'))
+
+    # undoing: unmerge with something that cannot be unmerged, clean of the Section / the Document
+    add('unmerge', 'wrong-object-type:none', lambda sc, sec: (lambda: sec.unmerge(None)), True)
+    add('unmerge', 'wrong-object-type:int', lambda sc, sec: (lambda: sec.unmerge(7)))
+    add('unmerge', 'self-unmerge', lambda sc, sec: (lambda: sec.unmerge(sec)))
+    add('clean', 'nothing-refusable:section', lambda sc, sec: (lambda: sec.clean()), True)
+    add('clean', 'nothing-refusable:document', lambda sc, sec: (lambda: sc.D.clean()), True)
+    add('merge', 'nothing-refusable:resolve-recorded-link', lambda sc, sec: (lambda: sec.merge()), True)
+    return ops
+
+
+LIFE_OPS = life_operations()
+
+
+FULL_LIVES_QUICK = ('merged-explicitly', 'link-resolved', 'clone-of-linking-section')
+
+
+def phase_lives(bulk, tier, seed):
+    for state in LIVES:
+        for op, feat, builder, core in LIFE_OPS:
+            if tier == 'quick' and not core and state not in FULL_LIVES_QUICK:
+                continue                    # quick: the whole battery on three lives, its core on the others
+            sc = Scene(lone=None, link=True)
+            sec = live(sc, state)
+            with h.quiet():
+                thunk = builder(sc, sec)
+            if thunk is None:
+                continue
+            sc.rescan()
+            facts = life_facts(sec, state)
+            bulk.evaluate(sc, thunk, op, '%s|%s' % (feat, state), 'Section',
+                          {'op': op, 'argument': feat, 'state': state}, cls_feat='%s|%s' % (feat, facts))
 
 
 # ----- phase G: attributes with a validated format -----------------------------------------------------
@@ -1805,7 +2449,7 @@ def phase_attributes(bulk, tier, seed):
 
 
 PHASES = (('extend', phase_extend), ('single', phase_single), ('ctor', phase_ctor), ('merge', phase_merge),
-          ('values', phase_values), ('link', phase_link), ('attributes', phase_attributes))
+          ('values', phase_values), ('link', phase_link), ('attributes', phase_attributes), ('lives', phase_lives))
 
 
 def run_bulk_refusals(tier='quick', seed=0, phases=None):
@@ -1823,12 +2467,26 @@ def run_bulk_refusals(tier='quick', seed=0, phases=None):
              'refused arguments x 6 parents, create_section / create_property; (D) Section.merge whose source has 1..3 '
              'children, one in conflict at every position, strict on/off, source detached / in another document; (E) value '
              'lists of length 1..3 with the unconvertible item at every position x %d dtypes x 10 entry points; (F) link '
-             'assignment x {no link, resolved link, include recorded}; (G) date / cardinality / id / name assignment; '
+             'assignment of %d targets (unresolvable, not a path, unmergeable with own content, clashing only with content '
+             'taken over from the former template - Section of another type / unconvertible Property values / two levels '
+             'down -, itself, its parent, mergeable, None, empty) to a Section with each of %d earlier lives (no link, link '
+             'resolved, include recorded, merged explicitly strict / non-strict / twice / then edited, merged then unmerged / '
+             'cleaned, link resolved then cleaned / document cleaned / edited, link recorded while detached / then '
+             'finalized, cleaned and finalized again, clone of a linking / of an explicitly merged Section, taken-over '
+             'child moved to another parent, template edited / removed afterwards); (G) date / cardinality / id / name '
+             'assignment; (H) on a Section with each of these lives: %d further operations (append / insert / parent '
+             'assignment / extend at both positions / item assignment / constructors / create_* whose object clashes with a '
+             'taken-over or an own child, fresh or attached elsewhere; renaming across taken-over and own children; '
+             'values, dtype, cardinality, id, reorder of taken-over objects; wrong types; merge of a source clashing with '
+             'taken-over or own content at both positions, strict on/off; unmerge of a non-Section / itself; clean of the '
+             'Section and of the Document; merge() of the recorded link)%s; '
              'contract per evaluation: {Inv} op {Inv; every root unchanged on raise}; distinct = (operation, destination, '
              'pre-state feature, outcome)'
              % ((('', '; quick: length 3 over 4 core elements, not on the detached Section') if tier == 'quick' else
                  (' and tuple (tuple: length 3 over 4 core elements)', '; plus 4000 seeded random lists of length 3..6 with 1-2 refusable elements')) +
-                (4 if tier == 'quick' else 7,)),
+                (4 if tier == 'quick' else 7, len(LINK_TARGETS), len(LIVES), len(LIFE_OPS),
+                 ' (quick: all of them on %d lives, %d core operations on the others)'
+                 % (len(FULL_LIVES_QUICK), sum(1 for o in LIFE_OPS if o[3])) if tier == 'quick' else '')),
         exhaustive=True)
     bulk = _Bulk(col)
     per_phase = {}
